@@ -415,7 +415,7 @@ pub fn check_c17(case: &Case, w: &World) -> Result<(), String> {
   // public API for scripts that are addresses
   for (s, v) in &want {
     let script = bitcoin::ScriptBuf::from_bytes(s.clone());
-    if let Ok(address) = bitcoin::Address::from_script(&script, bitcoin::Network::Regtest) {
+    if let Ok(address) = bitcoin::Address::from_script(&script, crate::chain::network_of(case.sched.flags)) {
       let mut listed = w.index.get_address_info(&address).map_err(|e| format!("get_address_info: {e}"))?;
       listed.sort();
       if listed != *v {
